@@ -17,6 +17,9 @@ def run(ctx):
     bl = fsfam.baselines(ctx, drv, cases)
     fsfam.judge_traces(ctx, [(b["case"], b["lines"]) for b in bl], "syscalls")
     n, jobs, _ = fsfam.fault_runs(ctx, drv, bl, errnos=fsfam.ERRNOS if thorough else ("ENOSPC", "EACCES"))
+    # two writer processes on one directory: the loser of a race reports failure and leaves the winner's record alone
+    cov_over = fsfam.overtaken_writer_runs(ctx, drv, bl)
+    ctx.coverage["overtaken_writer_runs"] = cov_over
     # read-only operations: no mutating system call at all
     ro = 0
     for op in ("auth", "exists", "list", "listfull", "check"):
